@@ -459,6 +459,11 @@ def _(c):
         c.ensure("equal_hash", hash(E) == hash(D))
     else:
         c.ensure("same_instant_1us", dt <= 1.5e-6)
+    # equality and the four ordering operators tell one story for the two dates of one instant (and for dates a fraction of a microsecond apart): exactly one of <, ==, >
+    # holds; <= is (< or ==), >= is (> or ==)
+    for P, Q in ((D, E), (E, D)):
+        c.ensure("comparison_operators_consistent", ((P < Q) + (P == Q) + (P > Q) == 1) and ((P <= Q) == ((P < Q) or (P == Q))) and ((P >= Q) == ((P > Q) or (P == Q)))
+                 and ((P != Q) == (not (P == Q))))
     back = E.change_scale(a)
     c.ensure("round_trip_2us", abs((back.d - D.d) * 86400 + back.s - D.s) <= 2e-6 + (4e-3 if "UT1" in (a, b) else 0))
     # documented offsets, read from the clock readings
@@ -534,15 +539,14 @@ def _(c):
     part = rows[k::64]
     ok_ut1 = ok_xy = ok_tai = True
     for mjd, ut1, x, y in part:
-        for frac in (0.0, 0.73):
-            e = Date(mjd + frac, scale="TAI").eop if False else None
-        D = Date(mjd, 43200.0)
-        ok_ut1 = ok_ut1 and D.eop.ut1_utc == ut1
-        ok_xy = ok_xy and D.eop.x == x and D.eop.y == y
         want = [v for m, v in leap if m <= mjd][-1]
-        ok_tai = ok_tai and D.eop.tai_utc == want
-        # ... also at 0 h of the day itself: a leap second is in force from the first instant of the day it is tabulated for
-        ok_tai = ok_tai and Date(mjd, 0.0).eop.tai_utc == want
+        # at every time of the (UTC) day, the line of THAT day: its first instant (a leap second is in force from the first instant of the day it is tabulated for),
+        # either side of noon, and its last second
+        for sec in (0.0, 43199.0, 43200.0, 43201.0, 86399.0):
+            D = Date(mjd, sec)
+            ok_ut1 = ok_ut1 and D.eop.ut1_utc == ut1
+            ok_xy = ok_xy and D.eop.x == x and D.eop.y == y
+            ok_tai = ok_tai and D.eop.tai_utc == want
     c.ensure("rows_read", len(rows) > 15000)
     c.ensure("ut1_utc_as_tabulated", ok_ut1)
     c.ensure("pole_as_tabulated", ok_xy)
